@@ -8,6 +8,7 @@ var verifC15Pool = []string{
 	"/a", "/a/b.c",
 	"/a/{v}", `/a/{v:\d+}`, "/a/{v}/b", "/a/{v}.x", "/ab/{v:[a-z]+}", "/v1.0/{v}", "/a/b{v}", "/a/{v}/{w}",
 	"/{v}", "/{v}/b", "/x{v}", "/{num}", "/{v}.x", `/{v:\d+}/{w:[a-z]+}/{u}`, "/{v}-{w}", "/{w}/{v}", `/u/{v}/{w:[a-z0-9{}]+}`,
+	`/f/{v}/{w:.+}`, "/{num}/{number:.+}", `/p/{v:.+}/end`,
 }
 
 // verifValueFor: a symbolic value satisfying the variable's regex.
@@ -49,18 +50,36 @@ func verifHarness_C15_buildURL() {
 	}
 	var u interface{ String() string }
 	_ = u
+	// the additional (query) argument: an unrelated key, or - a key is a variable only when it is
+	// written with braces - the bare name of a variable, or a prefix of one
+	qkey := "page"
+	if len(vars) > 0 && style != 2 {
+		switch verifChoice("qkey", 3) {
+		case 1:
+			qkey = vars[0].name
+		case 2:
+			qkey = vars[len(vars)-1].name[:1]
+		}
+		// (a name that itself contains a brace, as in "/{v}-{w}", is not a bare name)
+		for i := 0; i < len(qkey); i++ {
+			if qkey[i] == '{' || qkey[i] == '}' {
+				qkey = "page"
+				break
+			}
+		}
+	}
 	var path, query string
 	k := verifCatch(func() {
 		switch style {
 		case 0: // M map
-			m := M{"page": "2"}
+			m := M{qkey: "2"}
 			for i, v := range vars {
 				m["{"+v.name+"}"] = vals[i]
 			}
 			x := r.BuildURL("target", m)
 			path, query = x.Path, x.RawQuery
 		case 1: // key/value pairs
-			args := []any{"page", "2"}
+			args := []any{qkey, "2"}
 			for i, v := range vars {
 				args = append(args, "{"+v.name+"}", vals[i])
 			}
@@ -79,7 +98,7 @@ func verifHarness_C15_buildURL() {
 		}
 	})
 	verifAssert(k == "", "building the URL of an existing named route does not panic")
-	verifAssert(query == "page=2", "additional non-variable arguments appear as query parameters")
+	verifAssert(query == qkey+"=2", "additional non-variable arguments appear as query parameters")
 	got, ps, _ := r.QuickMatch("GET", path)
 	verifAssert(got == rt, "the built path is dispatched to the same route")
 	same := len(ps) == len(vars)
